@@ -6,6 +6,7 @@ import (
 	"fmt"
 	"math"
 	"math/rand"
+	"reflect"
 	"sort"
 	"strings"
 	"time"
@@ -117,7 +118,62 @@ func c11TimeValue(r *rand.Rand) c11Val {
 	return c11Val{t, want, "time.Time"}
 }
 
+// c11ForeignValue: values of types the normaliser does not know. A variable bound to one evaluates to that very value
+// (a callback, a record, a handle passed on to a registered operator), under every key layout and fetcher kind.
+type c11Record struct {
+	ID   int
+	Tags []string
+}
+
+var c11Foreign = []struct {
+	typ string
+	val interface{}
+}{
+	{"foreign-eval.Operator", eval.Operator(func(*eval.Ctx, []eval.Value) (eval.Value, error) { return int64(1), nil })},
+	{"foreign-operator-shaped-func", func(*eval.Ctx, []eval.Value) (eval.Value, error) { return int64(2), nil }},
+	{"foreign-func", func() int { return 3 }},
+	{"foreign-struct", c11Record{ID: 7, Tags: []string{"a"}}},
+	{"foreign-pointer", &c11Record{ID: 8}},
+	{"foreign-map", map[string]int{"k": 1}},
+	{"foreign-float64", 1.5},
+	{"foreign-slice-of-interface", []interface{}{int64(1), "x"}},
+	{"foreign-chan", make(chan int)},
+}
+
+// sameValue: valEq for the engine's own types, identity for reference-like foreign values, == for comparable ones
+func sameValue(a, b interface{}) (same bool) {
+	defer func() {
+		if recover() != nil {
+			same = false
+		}
+	}()
+	if a == nil || b == nil {
+		return a == nil && b == nil
+	}
+	va, vb := reflect.ValueOf(a), reflect.ValueOf(b)
+	if va.Type() != vb.Type() {
+		return false
+	}
+	switch va.Kind() {
+	case reflect.Func, reflect.Map, reflect.Chan, reflect.Ptr, reflect.UnsafePointer:
+		return va.Pointer() == vb.Pointer()
+	case reflect.Slice:
+		if valEq(a, b) {
+			return true
+		}
+		return va.Len() == vb.Len() && (va.Len() == 0 || va.Pointer() == vb.Pointer())
+	}
+	if va.Type().Comparable() {
+		return a == b
+	}
+	return reflect.DeepEqual(a, b)
+}
+
 func c11OtherValue(r *rand.Rand) c11Val {
+	if r.Intn(5) == 0 {
+		f := c11Foreign[r.Intn(len(c11Foreign))]
+		return c11Val{f.val, f.val, f.typ}
+	}
 	switch r.Intn(7) {
 	case 0:
 		v := r.Intn(2) == 0
@@ -231,10 +287,10 @@ func c11Run(w *W, idx int) {
 	tvm := eval.ToValueMap(vals)
 	for _, v := range append(append([]vr{}, intVars...), otherVars...) {
 		w.Inc("normaliser_probes")
-		if got, ok := tvm[v.name]; !ok || !valEq(got, v.val.norm) {
+		if got, ok := tvm[v.name]; !ok || !sameValue(got, v.val.norm) {
 			w.Fail("wrong-normalisation/ToValueMap/"+v.val.typ, "ToValueMap gives %s for %s value %v, expected %s", valTextAny(got), v.val.typ, v.val.raw, valText(v.val.norm))
 		}
-		if got := eval.UnifyType(v.val.raw); !valEq(got, v.val.norm) {
+		if got := eval.UnifyType(v.val.raw); !sameValue(got, v.val.norm) {
 			w.Fail("wrong-normalisation/UnifyType/"+v.val.typ, "UnifyType gives %s for %s value %v, expected %s", valTextAny(got), v.val.typ, v.val.raw, valText(v.val.norm))
 		}
 	}
@@ -261,6 +317,7 @@ func c11Run(w *W, idx int) {
 		cc.OperatorMap["ident"] = ident
 		var hist []string
 		nontrivial := false
+		funcsAreVariables := true
 		kind := (idx + l) % 6
 		regs := 0
 		switch kind {
@@ -297,6 +354,11 @@ func c11Run(w *W, idx int) {
 			}
 			realVals := map[string]interface{}{}
 			for n, v := range vals {
+				if v != nil && reflect.TypeOf(v).Kind() == reflect.Func {
+					// RegVarAndOp registers operator-shaped functions as operators: such a name is a variable only in the other layouts
+					funcsAreVariables = false
+					continue
+				}
 				if !strings.HasPrefix(n, "unregistered_extra_") {
 					realVals[n] = v
 				}
@@ -476,10 +538,16 @@ func c11Run(w *W, idx int) {
 				if optimize && r.Intn(2) == 0 {
 					continue
 				}
+				if !funcsAreVariables && reflect.TypeOf(v.val.raw).Kind() == reflect.Func {
+					continue
+				}
 				src := fmt.Sprintf("(ident %s)", v.name)
 				o := run(src, optimize)
 				w.Inc("ident_probes")
-				if o.Panic != nil || o.Err != nil || !valEq(o.V, v.val.norm) {
+				if strings.HasPrefix(v.val.typ, "foreign-") {
+					w.Inc("ident_probes_foreign_values")
+				}
+				if o.Panic != nil || o.Err != nil || !sameValue(o.V, v.val.norm) {
 					w.Fail("wrong-value-delivered/"+v.val.typ, "%s = %s, expected %s (bound %s value %v, optimize=%v)\n%s", src, o, valText(v.val.norm), v.val.typ, v.val.raw, optimize, layoutDesc)
 				}
 			}
@@ -487,7 +555,7 @@ func c11Run(w *W, idx int) {
 		// a whole program that is one variable (possible in infix notation only), through Compile + Eval and through the
 		// one-shot eval.Eval helper
 		for _, v := range append(append([]vr{}, intVars...), otherVars...) {
-			if r.Intn(3) != 0 {
+			if r.Intn(3) != 0 || strings.HasPrefix(v.val.typ, "foreign-") {
 				continue
 			}
 			for _, src := range []string{v.name, "(" + v.name + ")"} {
